@@ -5,7 +5,7 @@ import Poulpy.Model.Core.Ks
 Model driver for the key-switching family — command word `ks`.
 
 Request:  `id ks op=<op> big=<64|128> n=N bin=.. bkey=.. bout=.. sout=<res limbs> rin=.. rout=.. dsize=..
-           [skip=..] [idx=..] [nlin=..] [nlout=..] keys=<p:GGLWE@p:GGLWE…> a=<ct>`
+           [skip=..] [idx=..] [nlin=..] [nlout=..] [dft0=<v>] keys=<p:GGLWE@p:GGLWE…> a=<ct>`
 Answer:   `id ok <ct>` | `id panic:<class>` | `id err:<kind>`.
 
 Canonical text forms (same as `pvh ks`): polynomial = coefficients joined by `,`; column = limbs
@@ -63,7 +63,10 @@ def handle (ts : List String) : String :=
   let lwe : Lwe := { base2k := bin, nLwe := nlin, data := aCols.getD 0 [] }
   let ct (o : Outcome Ct) : String := showOut o (fun c => showCt c.cols)
   let lw (o : Outcome Lwe) : String := showOut o (fun l => showCol l.data)
-  let dft0 := zeroBuf n (rout + 1) key.size
+  -- previous content of the un-zeroed `res_dft` scratch buffer of the fused forms: every coefficient `dft0=<v>`
+  let dv := kvInt ts "dft0"
+  let dft0 : Buf := { zeroBuf n (rout + 1) key.size with
+    data := List.replicate (rout + 1) (List.replicate key.size (List.replicate n dv)) }
   match op with
   | "ks" => ct (keyswitch big128 bout sout rout a key)
   | "ks_assign" => ct (keyswitch big128 a.base2k a.size a.rank a key)
